@@ -22,6 +22,13 @@ fn classify(src: &str, accepted_by_impl: bool) -> String {
                     }
                 }
             }
+            // a description in front of `fragment on T …`: fragment_definition bumps whatever token is current as the
+            // `fragment` keyword (here the string) and then reads `fragment` as the fragment's name
+            for w in t.windows(3) {
+                if let (Tk::Str, Tk::Name(a), Tk::Name(b)) = (&w[0], &w[1], &w[2]) {
+                    if a == "fragment" && b == "on" { return "accepts-description-before-fragment".into(); }
+                }
+            }
         }
         "parser-accepts-non-document".into()
     } else { "parser-rejects-valid-document".into() }
@@ -47,7 +54,10 @@ pub fn run(ctx: &mut Ctx) {
               "directive @d on | QUERY", "type A implements & B & C { a: Int }", "union U = | A | B", "enum E { true }", "fragment on on T { a }", "{ a(x: $v) }", "query($a: Int = $b) { a }", "{ ...on }",
               // empty braces after directives (found by the 6-token enumeration of the thorough tier, fixed by 50fb92a)
               "extend schema @d { }", "extend schema { }", "extend schema @d { query: Q }", "schema @d { }", "extend type A @d { }", "extend interface A @d { }",
-              "extend enum A @d { }", "extend input A @d { }", "extend union A @d ="] { one(ctx, s); }
+              "extend enum A @d { }", "extend input A @d { }", "extend union A @d =",
+              // a description in front of a fragment definition (found while proving the document-level acceptance theorem)
+              "\"d\" fragment on T { a }", "\"\"\"d\"\"\" fragment on T @x { a }", "\"d\" fragment F on T { a }", "{ a } \"d\" fragment on T { a }",
+              "\"d\" fragment on on { a }", "\"d\" extend type A @d", "\"d\" mutation { a }"] { one(ctx, s); }
     let mut seqs = vec![];
     token_seqs(&["{", "}", "(", ")", ":", "$", "@", "a", "on", "query", "type", "extend", "schema", "...", "1"], if ctx.thorough { 6 } else { 5 }, |s| seqs.push(s.to_string()));
     ctx.stat_n("token_seqs", seqs.len() as u64);
